@@ -193,6 +193,7 @@ type Eng struct {
 	inlDepth     int
 	funcIndex    *funcIndex
 	lockObjs     map[string]types.Object
+	loopNest     int // lexical loop nesting while executing (inloop clauses)
 	lockSites    int // lock/unlock events and calls of lock-taking methods examined (locks.go)
 	specPkgPath  string
 	recVar       types.Object
